@@ -18,6 +18,9 @@ CLAIMED = {
  "C10": dict(engine="publish", path="harness/scen/c10.go", design="DESIGN.md section 4 (C10)",
    text="A complete, enumerated single-fault sweep (18 scenarios x every system call of the writer x kill / every errno of that call / 4 write-offset classes, incl. deferred write-back errors at close) plus seeded search over interleavings of the writer with a plain reader, a manual cache, an auto-refreshed cache and a second writer under 0-2 faults, kills and short writes. The invariant 'every Spec-named entry is exactly a complete previous or complete new Spec' is evaluated by an omniscient observer after every scheduler step (every instant between two system calls), reader observations during the write and a fresh scan after the end are checked too. New content is a strict superset of the old so that a YAML prefix is itself loadable.",
    note="Process-crash atomicity (every completed system call survives); power-loss atomicity is not claimed. Trusted: simulated kernel semantics of open/write/close/renameat2/unlink."),
+ "C14": dict(engine="hostnodes", path="harness/scen/c14.go", design="DESIGN.md section 4 (C14)",
+   text="Seeded exploration of histories of the host: device nodes of every type (char, block, fifo, regular file, absent) exist only on the simulated disk (the sandbox cannot mknod), cached Specs carry device-node edits in every specification state, and a run interleaves injections (half repeating an earlier request into an equal OCI spec), Device/Spec.ApplyEdits, host-node changes (renumber, retype, remove, replace), writing a cached Spec back, and refreshes. After every step the JSON image of every cached Spec and device read through the query API is compared with the image taken before the first step; host-derived attributes are compared with the current simulated node; equal requests with no host change must give equal results.",
+   note="Sequential (one client); manual refresh mode only, because writing a copy of a cached Spec into a watched directory would legitimately change resolution. Trusted: simulated lstat/mknod."),
 }
 
 PURE = {
